@@ -323,6 +323,9 @@ def _r2(ctx):
         fv = Func(m, f)
         it = Interp(model)
 
+        from .c09 import callback_attrs
+        role_attr = callback_attrs(c)
+
         def call(interp, st, p=p):
             gobj = Obj(ClassV(g.gm, g.gcls), {})
             for name in EVENTS:
@@ -330,7 +333,7 @@ def _r2(ctx):
                     interp2.state.events.append((name, list(args)))
                     return Sym('int', 'RESULT')
                 interp.extern['hx:cb:' + name] = rec
-                gobj.attrs[name] = Builtin('hx:cb:' + name)
+                gobj.attrs[role_attr.get(name, name)] = Builtin('hx:cb:' + name)
             items = [Const(None)]
             for i, s in enumerate(p.syms):
                 if s == 'variable_sequence':
@@ -450,7 +453,7 @@ def _r4(ctx):
     opaque = {}
     for mm in model.modules.values():
         if 'to_label' in mm.functions and 'extract_label' in mm.functions:
-            opaque[(mm.name, 'to_label')] = lambda interp, args, kwargs: Atom('to_label', args, 'str')
+            opaque[(mm.name, mm.functions.key_of('to_label'))] = lambda interp, args, kwargs: Atom('to_label', args, 'str')
     outs, (m, f, key) = run_callback(ctx, 'call_range_value', lambda interp: [Sym('str', 'S'), Sym('str', 'E')],
                                      listener_script=lambda: [], opaque=opaque)
     site = fmt(key)
